@@ -218,7 +218,8 @@ def _str_to_set_of_expr(value: Any) -> set[Expression]:
     for expression in value:
         try:
             result.add(_LICENSING.parse(expression))
-        except (ExpressionError, ParseError) as error:
+        # IndexError: license_expression crashes on e.g. '()'.
+        except (ExpressionError, ParseError, IndexError) as error:
             raise GlobalLicensingParseValueError(
                 _("Could not parse '{expression}'").format(
                     expression=expression
